@@ -1,3 +1,8 @@
+/-
+  C01 — property theorems for the Buffer edit model (`Ptk.Model.C01`).
+  Every theorem holds for all texts, cursors, counts, and (run_inv) all finite
+  op sequences; `sp` (str.isspace) and the transform callback `f` are arbitrary.
+-/
 import Ptk.Model.C01
 namespace Ptk.C01
 open Ptk.Py
@@ -5,7 +10,564 @@ open Ptk.Py
 /-- well-formedness of a buffer: the cursor is inside the text -/
 def Inv (b : Buf) : Prop := b.cur ≤ b.text.length
 
+/-! ### list helpers -/
+section helpers
+variable {α : Type}
+
+theorem take_app2 (pre la rest : List α) :
+    (pre ++ (la ++ rest)).take (pre.length + la.length) = pre ++ la := by
+  rw [← List.append_assoc, ← List.length_append, List.take_left']; rfl
+theorem drop_app2 (pre la rest : List α) :
+    (pre ++ (la ++ rest)).drop (pre.length + la.length) = rest := by
+  rw [← List.append_assoc, ← List.length_append, List.drop_left']; rfl
+theorem drop_app3 (pre la rest : List α) (x : α) :
+    (pre ++ (la ++ x :: rest)).drop (pre.length + la.length + 1) = rest := by
+  have : pre ++ (la ++ x :: rest) = (pre ++ la ++ [x]) ++ rest := by simp
+  rw [this, List.drop_left']; simp; omega
+
+theorem notNl_iff (c : Char) : notNl c = true ↔ c ≠ '\n' := by simp [notNl]
+
+theorem mem_takeWhile_p {p : α → Bool} {l : List α} {c : α} (h : c ∈ l.takeWhile p) :
+    p c = true := by
+  have := @List.all_takeWhile _ p l
+  rw [List.all_eq_true] at this
+  exact this c h
+
+theorem nl_not_mem_takeWhile (l : Text) : '\n' ∉ l.takeWhile notNl := by
+  intro hm; have := mem_takeWhile_p hm; simp [notNl] at this
+
+theorem dropWhile_head {p : α → Bool} {l : List α} {x : α} {xs : List α}
+    (h : l.dropWhile p = x :: xs) : p x = false := by
+  induction l with
+  | nil => simp at h
+  | cons y ys ih =>
+    rw [List.dropWhile_cons] at h
+    split at h
+    · exact ih h
+    · cases h; simp_all
+
+theorem length_takeWhile_le' (p : α → Bool) (l : List α) :
+    (l.takeWhile p).length ≤ l.length := by
+  induction l with
+  | nil => simp
+  | cons x xs ih => rw [List.takeWhile_cons]; split <;> simp <;> omega
+
+theorem takeWhile_take_spec (p : α → Bool) (l : List α) :
+    ∃ k, k ≤ l.length ∧ l.takeWhile p = l.take k ∧ ∀ c ∈ l.take k, p c = true := by
+  induction l with
+  | nil => exact ⟨0, by simp⟩
+  | cons x xs ih =>
+    obtain ⟨k, hk, he, ha⟩ := ih
+    by_cases hp : p x = true
+    · refine ⟨k+1, by simp; omega, by simp [hp, he], ?_⟩
+      intro c hc; simp at hc; rcases hc with rfl | hc
+      · exact hp
+      · exact ha c hc
+    · exact ⟨0, by simp, by simp [hp], by simp⟩
+
+theorem takeWhile_append_nl (la rest : Text) (h : '\n' ∉ la) :
+    (la ++ '\n' :: rest).takeWhile notNl = la := by
+  induction la with
+  | nil => simp [notNl]
+  | cons x xs ih =>
+    simp at h
+    have hx : notNl x = true := by rw [notNl_iff]; exact fun e => h.1 e.symm
+    rw [List.cons_append, List.takeWhile_cons, hx]; simp only [if_true]
+    rw [ih h.2]
+
+theorem split_at_nl (l : Text) (h : '\n' ∈ l) :
+    ∃ rest, l = l.takeWhile notNl ++ '\n' :: rest := by
+  induction l with
+  | nil => simp at h
+  | cons x xs ih =>
+    by_cases hx : x = '\n'
+    · exact ⟨xs, by simp [hx, notNl]⟩
+    · have : '\n' ∈ xs := by
+        simp at h; rcases h with h | h
+        · exact absurd h.symm hx
+        · exact h
+      obtain ⟨rest, hr⟩ := ih this
+      refine ⟨rest, ?_⟩
+      have hx' : notNl x = true := by rw [notNl_iff]; exact hx
+      rw [List.takeWhile_cons, hx']; simp only [if_true]
+      rw [List.cons_append, ← hr]
+
+theorem lstripChar_spec (c : Char) (l : Text) :
+    ∃ k, lstripChar c l = l.drop k ∧ ∀ x ∈ l.take k, x = c := by
+  induction l with
+  | nil => exact ⟨0, by simp [lstripChar]⟩
+  | cons x xs ih =>
+    unfold lstripChar
+    split
+    · obtain ⟨k, hk, ha⟩ := ih
+      refine ⟨k + 1, by simpa using hk, ?_⟩
+      intro y hy; simp at hy; rcases hy with rfl | hy
+      · assumption
+      · exact ha y hy
+    · exact ⟨0, by simp⟩
+end helpers
+
+theorem before_append_after (b : Buf) : b.before ++ b.after = b.text := by
+  simp [Buf.before, Buf.after]
+
+/-! ### insert -/
+
+/-- insert mode: text-before + data + text-after; cursor moves by `len(data)` iff asked. -/
+theorem insert_spec (b : Buf) (h : Inv b) (d : Text) (mv : Bool) :
+    (insertText b d false mv).text = b.before ++ d ++ b.after ∧
+    (insertText b d false mv).cur = (if mv then b.cur + d.length else b.cur) := by
+  unfold Inv at h
+  unfold insertText Buf.before Buf.after
+  cases mv <;> simp <;> omega
+
+example : Inv { text := ['a', '\n', 'b'], cur := 2 } := by unfold Inv; decide
+
+/-- overwrite mode: replaces `k ≤ len(data)` characters after the cursor, none of them a
+    line ending, and nothing else. -/
+theorem insert_overwrite_spec (b : Buf) (h : Inv b) (d : Text) (mv : Bool) :
+    ∃ k, k ≤ d.length ∧ k ≤ b.after.length ∧ '\n' ∉ b.after.take k ∧
+      (insertText b d true mv).text = b.before ++ d ++ b.after.drop k ∧
+      (insertText b d true mv).cur = (if mv then b.cur + d.length else b.cur) := by
+  unfold Inv at h
+  obtain ⟨k, hk, he, ha⟩ := takeWhile_take_spec notNl ((b.text.drop b.cur).take d.length)
+  have hk' : k ≤ d.length ∧ k ≤ b.text.length - b.cur := by simp at hk; omega
+  have he' : List.takeWhile notNl ((b.text.drop b.cur).take d.length) = (b.text.drop b.cur).take k := by
+    rw [he, List.take_take]; congr 1; omega
+  refine ⟨k, hk'.1, by simp [Buf.after]; omega, ?_, ?_, ?_⟩
+  · intro hmem
+    have : (b.text.drop b.cur).take k = ((b.text.drop b.cur).take d.length).take k := by
+      rw [List.take_take]; congr 1; omega
+    simp only [Buf.after] at hmem
+    rw [this] at hmem
+    have := ha _ hmem
+    simp [notNl] at this
+  · unfold insertText
+    simp only [if_true, he']
+    simp [Buf.before, Buf.after, List.drop_drop]
+    congr 2; omega
+  · unfold insertText
+    simp only [if_true, he']
+    cases mv <;> simp <;> omega
+
+/-! ### delete -/
+
+/-- delete(n): removes exactly the min(n, available) characters after the cursor, returns them -/
+theorem delete_spec (b : Buf) (h : Inv b) (n : Nat) :
+    (delete b n).2 = b.after.take (min n b.after.length) ∧
+    (delete b n).1.text = b.before ++ b.after.drop (min n b.after.length) ∧
+    (delete b n).1.cur = b.cur := by
+  unfold Inv at h
+  unfold delete
+  split
+  · simp [setText, Buf.before, Buf.after, List.drop_drop]
+    omega
+  · rename_i hge
+    have : b.cur = b.text.length := by omega
+    simp [Buf.before, Buf.after, this]
+
+/-- delete_before_cursor(n): removes exactly the last min(n, cursor) characters before the
+    cursor, returns them, and moves the cursor back by that many. -/
+theorem deleteBefore_spec (b : Buf) (h : Inv b) (n : Nat) :
+    let m := min n b.cur
+    (deleteBefore b n).2 = b.before.drop (b.cur - m) ∧
+    (deleteBefore b n).2.length = m ∧
+    (deleteBefore b n).1.text = b.before.take (b.cur - m) ++ b.after ∧
+    (deleteBefore b n).1.cur = b.cur - m := by
+  unfold Inv at h
+  intro m
+  unfold deleteBefore
+  split
+  · simp [Buf.before, Buf.after, List.take_take, m]
+    omega
+  · rename_i h0
+    have : b.cur = 0 := by omega
+    simp [Buf.before, Buf.after, this, m]
+
+example : (deleteBefore { text := "hello".toList, cur := 2 } 3) =
+    ({ text := "llo".toList, cur := 0 }, "he".toList) := by decide
+
+/-! ### swap / transforms -/
+
+/-- swap: exchanges exactly the two characters before the cursor -/
+theorem swap_spec (b : Buf) (h : Inv b) :
+    (2 ≤ b.cur → ∃ x y, b.text = b.text.take (b.cur - 2) ++ [x, y] ++ b.text.drop b.cur ∧
+        (swapBeforeCursor b).text = b.text.take (b.cur - 2) ++ [y, x] ++ b.text.drop b.cur ∧
+        (swapBeforeCursor b).cur = b.cur) ∧
+    (b.cur < 2 → swapBeforeCursor b = b) := by
+  unfold Inv at h
+  constructor
+  · intro h2
+    have h1 : b.cur - 2 < b.text.length := by omega
+    have h1' : b.cur - 1 < b.text.length := by omega
+    refine ⟨b.text[b.cur - 2], b.text[b.cur - 1], ?_, ?_, ?_⟩
+    · have e1 : b.text = b.text.take (b.cur - 2) ++ b.text.drop (b.cur - 2) := by simp
+      have e2 : b.text.drop (b.cur - 2) = b.text[b.cur - 2] :: b.text.drop (b.cur - 2 + 1) := by
+        rw [List.drop_eq_getElem_cons h1]
+      have e3 : b.text.drop (b.cur - 2 + 1) = b.text[b.cur - 1] :: b.text.drop b.cur := by
+        have : b.cur - 2 + 1 = b.cur - 1 := by omega
+        rw [this, List.drop_eq_getElem_cons h1']
+        congr 2; omega
+      conv => lhs; rw [e1, e2, e3]
+      simp
+    · unfold swapBeforeCursor
+      simp [h2, List.getElem?_eq_getElem h1, List.getElem?_eq_getElem h1', setText]
+    · unfold swapBeforeCursor
+      simp [h2, List.getElem?_eq_getElem h1, List.getElem?_eq_getElem h1', setText]
+      omega
+  · intro hlt
+    unfold swapBeforeCursor
+    simp; intro; omega
+
+/-- transform_region: only `text[from:to]` is replaced (by `f` of it) -/
+theorem transformRegion_frame (f : Text → Text) (b : Buf) (a e : Nat) (h : a < e) :
+    ∃ b', transformRegion f b a e = some b' ∧
+      b'.text = b.text.take a ++ f ((b.text.take e).drop a) ++ b.text.drop e := by
+  unfold transformRegion; simp [h, setText]
+
+/-! ### line views -/
+
+theorem lineBefore_suffix (b : Buf) : ∃ p, b.before = p ++ lineBefore b ∧ '\n' ∉ lineBefore b ∧
+    (p = [] ∨ p.getLast? = some '\n') := by
+  unfold lineBefore
+  generalize b.before = l
+  refine ⟨(l.reverse.dropWhile notNl).reverse, ?_, ?_, ?_⟩
+  · rw [← List.reverse_append, List.takeWhile_append_dropWhile, List.reverse_reverse]
+  · intro hm
+    rw [List.mem_reverse] at hm
+    exact nl_not_mem_takeWhile _ hm
+  · cases hd : l.reverse.dropWhile notNl with
+    | nil => left; simp
+    | cons x xs =>
+      right
+      have := dropWhile_head hd
+      simp [notNl] at this
+      simp [this]
+
+theorem lineAfter_prefix (b : Buf) : ∃ s, b.after = lineAfter b ++ s ∧ '\n' ∉ lineAfter b ∧
+    (s = [] ∨ s.head? = some '\n') := by
+  unfold lineAfter
+  generalize b.after = l
+  refine ⟨l.dropWhile notNl, (List.takeWhile_append_dropWhile).symm, nl_not_mem_takeWhile _, ?_⟩
+  cases hd : l.dropWhile notNl with
+  | nil => left; rfl
+  | cons x xs =>
+    right
+    have := dropWhile_head hd
+    simp [notNl] at this
+    simp [this]
+
+theorem lineBefore_le (b : Buf) (h : Inv b) : (lineBefore b).length ≤ b.cur := by
+  unfold lineBefore Inv at *
+  have := length_takeWhile_le' notNl b.before.reverse
+  simp [Buf.before] at this ⊢
+  omega
+
+theorem lineAfter_le (b : Buf) (h : Inv b) : b.cur + (lineAfter b).length ≤ b.text.length := by
+  unfold lineAfter Inv at *
+  have := length_takeWhile_le' notNl b.after
+  simp [Buf.after] at this ⊢
+  omega
+
+/-- transform_current_line replaces exactly the current line (the maximal newline-free
+    stretch around the cursor) by `f` of it. -/
+theorem transformCurrentLine_frame (f : Text → Text) (b : Buf) (h : Inv b) :
+    ∃ p s, b.text = p ++ currentLine b ++ s ∧ '\n' ∉ currentLine b ∧
+      (p = [] ∨ p.getLast? = some '\n') ∧ (s = [] ∨ s.head? = some '\n') ∧
+      (transformCurrentLine f b).text = p ++ f (currentLine b) ++ s := by
+  obtain ⟨p, hp, hp1, hp2⟩ := lineBefore_suffix b
+  obtain ⟨s, hs, hs1, hs2⟩ := lineAfter_prefix b
+  have htext : b.text = p ++ currentLine b ++ s := by
+    rw [← before_append_after b] ; rw [hp, hs]; simp [currentLine]
+  refine ⟨p, s, htext, ?_, hp2, hs2, ?_⟩
+  · simp [currentLine]; exact ⟨hp1, hs1⟩
+  · unfold Inv at h
+    have hbl : b.before.length = b.cur := by simp [Buf.before]; omega
+    have hlenp : p.length = b.cur - (lineBefore b).length := by
+      have := hbl; rw [hp] at this; simp at this; omega
+    have hlb : (lineBefore b).length ≤ b.cur := by
+      have := hbl; rw [hp] at this; simp at this; omega
+    unfold transformCurrentLine
+    simp only [setText]
+    rw [← hlenp]
+    have e : b.cur + (lineAfter b).length = p.length + (currentLine b).length := by
+      simp [currentLine]; omega
+    rw [e]
+    conv => lhs; rw [htext]
+    simp [List.take_append, List.drop_append]
+
+/-! ### newline / insert line -/
+
+theorem leadingWs_space (sp : Char → Bool) (b : Buf) : ∀ c ∈ leadingWs sp b, sp c = true := by
+  intro c hc
+  exact mem_takeWhile_p hc
+
+/-- newline: inserts exactly one line ending (followed by copied margin blanks) at the cursor -/
+theorem newline_spec (sp : Char → Bool) (b : Buf) (h : Inv b) (c : Bool) :
+    ∃ m : Text, (∀ ch ∈ m, sp ch = true) ∧
+      (newline sp b c).text = b.before ++ '\n' :: m ++ b.after ∧
+      (newline sp b c).cur = b.cur + 1 + m.length := by
+  unfold newline
+  cases c
+  · refine ⟨[], by simp, ?_⟩
+    have := insert_spec b h ['\n'] true
+    simp at this ⊢
+    exact this
+  · refine ⟨leadingWs sp b, leadingWs_space sp b, ?_⟩
+    have := insert_spec b h ('\n' :: leadingWs sp b) true
+    simp at this ⊢
+    constructor
+    · exact this.1
+    · rw [this.2]; omega
+
+/-- insert_line_below: one line ending (+ margin blanks) is inserted at the end of the current
+    line; nothing else changes. -/
+theorem lineBelow_spec (sp : Char → Bool) (b : Buf) (h : Inv b) (c : Bool) :
+    ∃ m : Text, (∀ ch ∈ m, sp ch = true) ∧
+      (insertLineBelow sp b c).text =
+        b.text.take (b.cur + (lineAfter b).length) ++ '\n' :: m ++
+        b.text.drop (b.cur + (lineAfter b).length) := by
+  have hle := lineAfter_le b h
+  unfold Inv at h
+  have hb1 : setCursor b ((b.cur : Int) + (lineAfter b).length)
+      = { text := b.text, cur := b.cur + (lineAfter b).length } := by
+    simp [setCursor]; omega
+  have hi : Inv { text := b.text, cur := b.cur + (lineAfter b).length } := by unfold Inv; simpa using hle
+  unfold insertLineBelow
+  rw [hb1]
+  cases c
+  · refine ⟨[], by simp, ?_⟩
+    have := (insert_spec _ hi ['\n'] true).1
+    simp only [Buf.before, Buf.after] at this
+    simpa using this
+  · refine ⟨leadingWs sp b, leadingWs_space sp b, ?_⟩
+    have := (insert_spec _ hi ('\n' :: leadingWs sp b) true).1
+    simp only [Buf.before, Buf.after] at this
+    simpa using this
+
+/-- insert_line_above: margin blanks + one line ending are inserted at the start of the current
+    line; nothing else changes. -/
+theorem lineAbove_spec (sp : Char → Bool) (b : Buf) (h : Inv b) (c : Bool) :
+    ∃ m : Text, (∀ ch ∈ m, sp ch = true) ∧
+      (insertLineAbove sp b c).text =
+        b.text.take (b.cur - (lineBefore b).length) ++ m ++ ['\n'] ++
+        b.text.drop (b.cur - (lineBefore b).length) := by
+  have hle := lineBefore_le b h
+  unfold Inv at h
+  have hb1 : setCursor b ((b.cur : Int) - (lineBefore b).length)
+      = { text := b.text, cur := b.cur - (lineBefore b).length } := by
+    simp [setCursor]; omega
+  have hi : Inv { text := b.text, cur := b.cur - (lineBefore b).length } := by unfold Inv; simp; omega
+  unfold insertLineAbove
+  rw [hb1]
+  cases c
+  · refine ⟨[], by simp, ?_⟩
+    have := (insert_spec _ hi ['\n'] true).1
+    simp only [Buf.before, Buf.after] at this
+    simp only [setCursor]
+    simpa using this
+  · refine ⟨leadingWs sp b, leadingWs_space sp b, ?_⟩
+    have := (insert_spec _ hi (leadingWs sp b ++ ['\n']) true).1
+    simp only [Buf.before, Buf.after] at this
+    simp only [setCursor]
+    simpa using this
+
+/-! ### join -/
+
+theorem joinNext_canonical (pre la rest sep : Text) (hla : '\n' ∉ la) :
+    (joinNextLine { text := pre ++ (la ++ '\n' :: rest), cur := pre.length } sep).text
+      = pre ++ la ++ sep ++ lstripChar ' ' rest := by
+  have hafter : ({ text := pre ++ (la ++ '\n' :: rest), cur := pre.length } : Buf).after
+      = la ++ '\n' :: rest := by simp [Buf.after]
+  have hLA : lineAfter { text := pre ++ (la ++ '\n' :: rest), cur := pre.length } = la := by
+    unfold lineAfter; rw [hafter]; exact takeWhile_append_nl la rest hla
+  have hnl : onLastLine { text := pre ++ (la ++ '\n' :: rest), cur := pre.length } = false := by
+    unfold onLastLine; rw [hafter]; simp
+  unfold joinNextLine
+  simp only [hnl, Bool.not_false, if_true, hLA]
+  have hc : setCursor { text := pre ++ (la ++ '\n' :: rest), cur := pre.length }
+      ((pre.length : Int) + (la.length : Int))
+      = { text := pre ++ (la ++ '\n' :: rest), cur := pre.length + la.length } := by
+    simp [setCursor]; omega
+  rw [hc]
+  have hd : (delete { text := pre ++ (la ++ '\n' :: rest), cur := pre.length + la.length } 1).1
+      = { text := pre ++ (la ++ rest), cur := pre.length + la.length } := by
+    unfold delete
+    have hlt : pre.length + la.length < (pre ++ (la ++ '\n' :: rest)).length := by simp
+    simp only [hlt, if_true, Buf.after, setText, drop_app2, take_app2]
+    simp
+    exact drop_app3 pre la rest '\n'
+  rw [hd]
+  simp only [setText, Buf.before, Buf.after, take_app2, drop_app2]
+
+/-- join_next_line: on the last line a no-op; otherwise exactly the line ending after the current
+    line and the blanks following it are replaced by the separator. -/
+theorem joinNext_spec (b : Buf) (h : Inv b) (sep : Text) :
+    ('\n' ∉ b.after → joinNextLine b sep = b) ∧
+    ('\n' ∈ b.after → ∃ rest k, b.after = lineAfter b ++ '\n' :: rest ∧
+        (∀ x ∈ rest.take k, x = ' ') ∧
+        (joinNextLine b sep).text = b.before ++ lineAfter b ++ sep ++ rest.drop k) := by
+  constructor
+  · intro hn; unfold joinNextLine onLastLine; simp [hn]
+  · intro hy
+    obtain ⟨rest, hr⟩ := split_at_nl b.after hy
+    obtain ⟨k, hk, hka⟩ := lstripChar_spec ' ' rest
+    have hr' : b.after = lineAfter b ++ '\n' :: rest := hr
+    refine ⟨rest, k, hr', hka, ?_⟩
+    have hla : '\n' ∉ lineAfter b := nl_not_mem_takeWhile _
+    unfold Inv at h
+    have hb : b = { text := b.before ++ (lineAfter b ++ '\n' :: rest), cur := b.before.length } := by
+      have e : b.before ++ b.after = b.text := before_append_after b
+      have l : b.before.length = b.cur := by simp [Buf.before]; omega
+      cases b with
+      | mk t c =>
+        simp only [Buf.mk.injEq]
+        refine ⟨?_, l.symm⟩
+        rw [← hr']; exact e.symm
+    have := joinNext_canonical b.before (lineAfter b) rest sep hla
+    rw [← hb] at this
+    rw [this, hk]
+
+/-! ### transform_lines (indent / unindent) frame -/
+
+theorem splitOn_ne_nil (c : Char) (t : Text) : splitOn c t ≠ [] := by
+  induction t with
+  | nil => simp [splitOn]
+  | cons x xs ih =>
+    unfold splitOn
+    split
+    · simp
+    · split <;> simp
+
+/-- `"\n".join(text.split("\n")) == text` -/
+theorem join_splitOn (t : Text) : join ['\n'] (splitOn '\n' t) = t := by
+  induction t with
+  | nil => simp [splitOn, join]
+  | cons x xs ih =>
+    unfold splitOn
+    split
+    · rename_i hx
+      cases hs : splitOn '\n' xs with
+      | nil => exact absurd hs (splitOn_ne_nil _ _)
+      | cons l ls =>
+        rw [hs] at ih
+        simp [join, hx]
+        exact ih
+    · cases hs : splitOn '\n' xs with
+      | nil => exact absurd hs (splitOn_ne_nil _ _)
+      | cons l ls =>
+        rw [hs] at ih
+        simp only []
+        cases ls with
+        | nil => simp [join] at ih ⊢; exact ih
+        | cons l2 ls2 => simp [join] at ih ⊢; exact ih
+
+theorem tlGo_length (f : Text → Text) (n fuel : Nat) (i : Int) (ls : List Text) :
+    (tlGo f n fuel i ls).length = ls.length := by
+  induction fuel generalizing i ls with
+  | zero => simp [tlGo]
+  | succ fuel ih =>
+    simp only [tlGo]
+    rw [ih]
+    split <;> simp
+
+/-- transform_lines: a line whose index is not addressed by any index of the range is untouched -/
+theorem tlGo_frame (f : Text → Text) (n fuel : Nat) (i : Int) (ls : List Text) (k : Nat)
+    (hk : ∀ j : Int, i ≤ j → j < i + fuel → pyIdx n j ≠ some k) :
+    (tlGo f n fuel i ls)[k]? = ls[k]? := by
+  induction fuel generalizing i ls with
+  | zero => simp [tlGo]
+  | succ fuel ih =>
+    simp only [tlGo]
+    rw [ih]
+    · have := hk i (by omega) (by omega)
+      split
+      · rename_i k' hk'
+        rw [hk'] at this
+        have hne : k' ≠ k := fun e => this (by rw [e])
+        simp [hne]
+      · rfl
+    · intro j h1 h2
+      exact hk j (by omega) (by omega)
+
+/-- transform_lines / indent / unindent: when no index of the range addresses a line, the whole
+    text is unchanged; in general the result is the "\n"-join of the per-line transformed list. -/
+theorem transformLines_noop (f : Text → Text) (t : Text) (a e : Int) (h : e ≤ a) :
+    transformLines f t a e = t := by
+  unfold transformLines
+  have : (e - a).toNat = 0 := by omega
+  simp [this, tlGo, join_splitOn]
+
+
+/-! ### the invariant along every operation sequence -/
+
 theorem setCursor_inv (b : Buf) (v : Int) : Inv (setCursor b v) := by
   unfold Inv setCursor; simp; omega
+theorem setText_inv (b : Buf) (t : Text) : Inv (setText b t) := by
+  unfold Inv setText; simp; omega
+theorem insertText_inv (b : Buf) (d : Text) (o m : Bool) : Inv (insertText b d o m) := by
+  unfold Inv insertText; simp; omega
+theorem delete_inv (b : Buf) (h : Inv b) (n : Nat) : Inv (delete b n).1 := by
+  unfold delete; split
+  · exact setText_inv _ _
+  · exact h
+theorem deleteBefore_inv (b : Buf) (h : Inv b) (n : Nat) : Inv (deleteBefore b n).1 := by
+  unfold Inv at *
+  unfold deleteBefore; split
+  · simp; omega
+  · exact h
+theorem newline_inv (sp) (b : Buf) (c : Bool) : Inv (newline sp b c) := by
+  unfold newline; split <;> exact insertText_inv _ _ _ _
+theorem lineAbove_inv (sp) (b : Buf) (c : Bool) : Inv (insertLineAbove sp b c) := by
+  unfold insertLineAbove; exact setCursor_inv _ _
+theorem lineBelow_inv (sp) (b : Buf) (c : Bool) : Inv (insertLineBelow sp b c) := by
+  unfold insertLineBelow; exact insertText_inv _ _ _ _
+theorem joinNext_inv (b : Buf) (h : Inv b) (s : Text) : Inv (joinNextLine b s) := by
+  unfold joinNextLine; split
+  · exact setText_inv _ _
+  · exact h
+theorem swap_inv (b : Buf) (h : Inv b) : Inv (swapBeforeCursor b) := by
+  unfold swapBeforeCursor; split
+  · split
+    · exact setText_inv _ _
+    · exact h
+  · exact h
+theorem trLine_inv (f) (b : Buf) : Inv (transformCurrentLine f b) := by
+  unfold transformCurrentLine; exact setText_inv _ _
+theorem trRegion_inv (f) (b : Buf) (h : Inv b) (x y : Nat) :
+    Inv ((transformRegion f b x y).getD b) := by
+  unfold transformRegion; split
+  · exact setText_inv _ _
+  · exact h
+theorem indent_inv (b : Buf) (x y : Int) (n : Nat) : Inv (indent b x y n) := by
+  unfold indent; exact setCursor_inv _ _
+theorem unindent_inv (sp) (b : Buf) (x y : Int) (n : Nat) : Inv (unindent sp b x y n) := by
+  unfold unindent; exact setCursor_inv _ _
+
+/-- every single operation keeps the cursor inside the text -/
+theorem step_inv (sp : Char → Bool) (f : Text → Text) (b : Buf) (h : Inv b) (op : Op) :
+    Inv (step sp f b op).1 := by
+  cases op <;> simp only [step]
+  · exact insertText_inv _ _ _ _
+  · exact delete_inv _ h _
+  · exact deleteBefore_inv _ h _
+  · exact newline_inv _ _ _
+  · exact lineAbove_inv _ _ _
+  · exact lineBelow_inv _ _ _
+  · exact joinNext_inv _ h _
+  · exact swap_inv _ h
+  · exact setCursor_inv _ _
+  · exact setText_inv _ _
+  · exact trLine_inv _ _
+  · exact trRegion_inv _ _ h _ _
+  · exact indent_inv _ _ _ _
+  · exact unindent_inv _ _ _ _ _
+
+/-- after every finite sequence of edit operations the cursor is within `0..len(text)` -/
+theorem run_inv (sp : Char → Bool) (f : Text → Text) (ops : List Op) (b : Buf) (h : Inv b) :
+    Inv (run sp f b ops) := by
+  unfold run
+  induction ops generalizing b with
+  | nil => simpa
+  | cons op ops ih => simp only [List.foldl_cons]; exact ih _ (step_inv sp f b h op)
 
 end Ptk.C01
